@@ -26,7 +26,12 @@ fn text(letter: char, tok: u32, lines: usize, k: usize) -> String {
     if lines == 3 && k == 2 {
         String::new()
     } else {
-        format!("{}{}.{}", letter, tok, k)
+        // some payloads contain multi-byte characters (before and after the line breaks)
+        match tok % 3 {
+            0 => format!("{}{}.{}", letter, tok, k),
+            1 => format!("{}é{}.{}木", letter, tok, k),
+            _ => format!("木{}{}.{}", letter, tok, k),
+        }
     }
 }
 impl Doc {
